@@ -38,6 +38,30 @@ Restarted(line) == LET pre == CanonStore(line.prestore) ld == CanonModel(line.lo
   F("C11.kept", C11kept(pre, ld)) \cup F("C11.identity", C11identity(pre, ld))
   \cup F("C11.expiry", C11expiry(pre, ld)) \cup F("C11.nothingNew", C11nothingNew(pre, ld))
 
+(* C08 across a fail-over: an instance recorded under a server that is DOWN    *)
+(* (no presence node) is still placed there when the new master has loaded its  *)
+(* model - whether its data retention has run out is for the next cycle to      *)
+(* decide, not for the restart.  Restricted to instances whose restore cannot   *)
+(* legitimately fail: not schedule-once, no lease (the reboot date is not       *)
+(* re-checked for them), no affinity limits, partition and traits match,        *)
+(* everything recorded under the server fits, recorded once.                    *)
+DownKept(line) ==
+  LET pre == CanonStore(line.prestore) ld == CanonModel(line.loaded) IN
+  ("decl_apps" \in DOMAIN line) =>
+  \A p \in Stored(pre) :
+    LET s == p[1] a == p[2] IN
+    (/\ s \in DOMAIN ld.servers /\ s \notin DOMAIN pre.presence
+     /\ a \in pre.scheduled /\ a \in DOMAIN ld.apps /\ a \in DOMAIN line.decl_apps
+     /\ ~line.decl_apps[a].once /\ line.decl_apps[a].lease = 0
+     /\ DOMAIN line.decl_apps[a].limits = {}
+     /\ \A b \in RecordedOn(pre, s) : b \in DOMAIN ld.apps =>
+           /\ ld.apps[b].label = ld.servers[s].label
+           /\ ld.apps[b].traits \subseteq ld.servers[s].traits
+           /\ b \in DOMAIN line.decl_apps /\ DOMAIN line.decl_apps[b].limits = {}
+     /\ FitsCap(pre, ld, s)
+     /\ Cardinality(ServersOf(pre, a)) = 1)
+      => ld.apps[a].server = s
+
 (* extension (not a listed property): Master._check_pending_start is a step of *)
 (* PendingStart.tla.  Times in ms.                                            *)
 PendingOf(m) == [a \in DOMAIN m.pending |->
@@ -88,7 +112,8 @@ Verdict(prev, line) ==
                        THEN Restarted(line) ELSE {}),
         ex |-> {}]
   ELSE IF isRestart /\ completed
-  THEN [fail |-> dup \cup Published(line) \cup Renamed(Published(line)) \cup Restarted(line),
+  THEN [fail |-> dup \cup Published(line) \cup Renamed(Published(line)) \cup Restarted(line)
+                 \cup F("C08.keepRestart", DownKept(line)),
         ex |-> E("C09", C09ex(CanonStore(line.store), CanonModel(line.model)))
                \cup E("C10", AfterCrash(prev))
                \cup E("C11", C11ex(CanonStore(line.prestore), CanonModel(line.loaded)))]
